@@ -655,7 +655,7 @@ void add(mc::Runner &R, const std::string &name, uint64_t size, bool quick, bool
   sp.timeout_s = 30;
   sp.cases_per_index = NUM_CARRIERS + 1;
   sp.run = [gen](uint64_t idx, mc::Ctx &ctx) { check(gen(idx), ctx); };
-  sp.describe = [gen](uint64_t idx) { return show(gen(idx)) + " :: carriers: standalone GeometryMetadata codec, mesh sequential, mesh Edgebreaker, point cloud sequential, kd-tree int, kd-tree quantized float, standalone Metadata codec (root only)"; };
+  sp.describe = [gen](uint64_t idx) { return show(gen(idx)) + " :: run on all 7 carriers"; };
   sp.klass = [gen](uint64_t idx) { return klass_tag(info_of(gen(idx))); };
   sp.worker_init = []() { bin64k(); bytes_of(0); };
   R.add(sp);
@@ -694,7 +694,8 @@ int main(int argc, char **argv) {
       "quick = focus levels 0..2 (depth <= 2 plus leaf children), placement 0 full, placements 1/2 with entry sets only; thorough adds level 3 and "
       "the full product for every placement, trees_d3 and attmeta_k48",
       "ASan+UBSan part: EntryValue's constructors are undefined for an empty value (UBSan abort before anything is encoded), so the product spaces "
-      "of this part use the 6 non-empty values and the spaces empty_value_* put an empty value on every level; the second part (-O2 build, --x-fast) "
+      "of this part use the 6 non-empty values and the spaces empty_value_* put an empty value on every level (thorough: every entry set over 6 names x 7 values that "
+      "contains an empty string, 201 per level; quick: the same over values {empty string, 64 KiB}, 51 per level; each costs a worker restart); the second part (-O2 build, --x-fast) "
       "runs the same products with the 7-value list to reach the encoder/decoder with empty values",
       "geometry is tiny and unquantized except for the kd-tree float carrier (8 bits, half-step tolerance)"};
   R.transition_counters = {"executions"};
@@ -754,8 +755,21 @@ int main(int argc, char **argv) {
         if (em) with_empty.push_back(e);
       }
       for (int level = 0; level <= 3; ++level)
-        add(R, "empty_value_L" + std::to_string(level), with_empty.size(), level <= 2, true,
+        add(R, "empty_value_L" + std::to_string(level), with_empty.size(), false, true,
             [=](uint64_t idx) { return place(focus_tree(level, with_empty[idx], 0, V7), 0); });
+      // quick (every such case costs a worker restart): 6 names x values {empty string, 64 KiB binary}, sets with an empty value
+      const std::vector<int> V2 = {V_EMPTYSTR, V_BIN64K};
+      std::vector<uint64_t> with_empty2;
+      for (uint64_t e = 0; e < entry_sets(2); ++e) {
+        RNode n;
+        set_entries(&n, e, V2);
+        bool em = false;
+        for (auto &x : n.entries) em = em || is_empty_value(x.second);
+        if (em) with_empty2.push_back(e);
+      }
+      for (int level = 0; level <= 2; ++level)
+        add(R, "empty_value_small_L" + std::to_string(level), with_empty2.size(), true, false,
+            [=](uint64_t idx) { return place(focus_tree(level, with_empty2[idx], 0, V2), 0); });
     }
   }
   // other ways of adding a zero-length value
